@@ -217,6 +217,16 @@ FIXED_CALLS = [
 ]
 
 
+def guarded(ctx, fn, *a):
+    try:
+        return fn(ctx, *a)
+    except Exception as e:
+        import traceback
+        ctx.fail("oracle/implementation-raised", "driving the implementation raised %s: %s; case %s"
+                 % (type(e).__name__, str(e)[:300], str(a[3:])[:800]), replay=dict(case=repr(a[3:])[:4000], traceback=traceback.format_exc()[-1500:]))
+        return None
+
+
 def run_call(ctx, S, E, tag, family, argspec, pos, kws):
     cons = []
     for n, cs, opt in argspec:
@@ -232,11 +242,16 @@ def run_call(ctx, S, E, tag, family, argspec, pos, kws):
     if calls:
         args, kwargs = calls[0][1], calls[0][2]
         # THE PROPERTY: what user code saw must pass the declared schema (judged by the real constraint objects)
+        why = None
         try:
             w.ms.checkAllArgs(args, kwargs, True)
         except S.Violation as v:
+            why = "the implementation's own checkAllArgs: %s" % v
+        if why is None and not S.py_args_ok(argspec, args, kwargs):
+            why = "the reference semantics of the declared constraints"
+        if why:
             ctx.fail("oracle/unchecked-argument-reached-user-code", "remote_m ran with arguments that violate its declared "
-                     "schema (%s): args=%r kwargs=%r; stream %s" % (v, S.canon(list(args)), S.canon(kwargs), str(case)[:1200]),
+                     "schema (judged by %s): args=%r kwargs=%r; stream %s" % (why, S.canon(list(args)), S.canon(kwargs), str(case)[:1200]),
                      replay=case)
         rec["outcome"] = "invoked"
         rec["args"] = [S.canon(x) for x in args]
@@ -266,12 +281,12 @@ def call_cases(ctx, S, E):
     recs = []
     for p in sorted(glob.glob(os.path.join(common.VERIF, "corpus", "C02", "call-*.json"))):
         w = json.load(open(p))
-        r = run_call(ctx, S, E, "corpus:" + os.path.basename(p), w.get("family", "corpus"), [tuple(x) for x in w["argspec"]], w["pos"], w["kws"])
-        if w.get("expect") and r["outcome"] != w["expect"]:
+        r = guarded(ctx, run_call, S, E, "corpus:" + os.path.basename(p), w.get("family", "corpus"), [tuple(x) for x in w["argspec"]], w["pos"], w["kws"])
+        if r and w.get("expect") and r["outcome"] != w["expect"]:
             ctx.fail("oracle/regression-" + os.path.basename(p)[:-5], "corpus witness %s: expected %s, got %s" % (p, w["expect"], r["outcome"]), replay=w)
         recs.append(r)
     for tag, argspec, pos, kws in FIXED_CALLS:
-        recs.append(run_call(ctx, S, E, tag, "fixed", argspec, pos, kws))
+        recs.append(guarded(ctx, run_call, S, E, tag, "fixed", argspec, pos, kws))
     for i in range(ctx.n(330, 6000)):
         nargs = rng.choice([1, 1, 2, 2, 3])
         argspec = []
@@ -311,8 +326,8 @@ def call_cases(ctx, S, E):
             pos = [wires[0], ["wr", vals[0], 0]] + wires[2:npos if npos > 2 else 2]
             kws = [[NAMES[k], wires[k]] for k in range(max(npos, 2), nargs)]
         kws.sort(key=lambda x: x[0])
-        recs.append(run_call(ctx, S, E, "gen", family, argspec, pos, kws))
-    return recs
+        recs.append(guarded(ctx, run_call, S, E, "gen", family, argspec, pos, kws))
+    return [r for r in recs if r]
 
 
 # --------------------------------------------------------------------------------------------------------------- answers
@@ -336,7 +351,7 @@ def run_answer(ctx, S, E, tag, family, cs, ws):
         rec["outcome"] = "callback"
         rec["value"] = S.canon(out[1])
         # THE PROPERTY: the value handed to the callback satisfies the result constraint in force
-        if not S.real_accepts(w.ms.getResponseConstraint(), out[1], True):
+        if not S.real_accepts(w.ms.getResponseConstraint(), out[1], True) or not S.py_satisfies(cs, out[1]):
             ctx.fail("oracle/result-unchecked", "the callRemote callback received %r which violates the result constraint %r "
                      "(hand-built answer %s)" % (rec["value"], cs, str(ws)[:300]), replay=case)
     elif not w.alive():
@@ -359,12 +374,12 @@ def answer_cases(ctx, S, E):
     recs = []
     for p in sorted(glob.glob(os.path.join(common.VERIF, "corpus", "C02", "answer-*.json"))):
         w = json.load(open(p))
-        r = run_answer(ctx, S, E, "corpus:" + os.path.basename(p), w.get("family", "corpus"), w["cs"], w["ws"])
-        if w.get("expect") and r["outcome"] != w["expect"]:
+        r = guarded(ctx, run_answer, S, E, "corpus:" + os.path.basename(p), w.get("family", "corpus"), w["cs"], w["ws"])
+        if r and w.get("expect") and r["outcome"] != w["expect"]:
             ctx.fail("oracle/regression-" + os.path.basename(p)[:-5], "corpus witness %s: expected %s, got %s" % (p, w["expect"], r["outcome"]), replay=w)
         recs.append(r)
     for tag, cs, ws in FIXED_ANSWERS:
-        recs.append(run_answer(ctx, S, E, tag, "fixed", cs, ws))
+        recs.append(guarded(ctx, run_answer, S, E, tag, "fixed", cs, ws))
     for i in range(ctx.n(230, 4000)):
         cs = S.gen_cs(rng, rng.choice([0, 1, 2, 2]), opener_choice=False)
         v = S.canon_vs(ascii_only(S.gen_value(cs, rng)))
@@ -379,8 +394,8 @@ def answer_cases(ctx, S, E):
         ws = S.slice_vs(v)
         if family == "wire":
             ws, family = mutate_wire(S, ws, rng)
-        recs.append(run_answer(ctx, S, E, "gen", family, cs, ws))
-    return recs
+        recs.append(guarded(ctx, run_answer, S, E, "gen", family, cs, ws))
+    return [r for r in recs if r]
 
 
 # --------------------------------------------------------------------------------------------------------------- model
